@@ -10,7 +10,7 @@ Nothing here matches source text, line numbers or block numbers."""
 import json
 import re
 
-from .lib import closure_of_operand, operand_local
+from .lib import closure_of_operand, operand_local, switches_on_value
 
 
 # ------------------------------------------------------------------------------------------------ closures and their use sites
@@ -212,12 +212,28 @@ def _mut_borrowed(f, l):
     return any(st["rv"]["rv"] == "ref" and st["rv"].get("mut") and st["rv"]["pl"]["l"] == l and not st["rv"]["pl"]["p"] for _, _, st in f.stmts())
 
 
-def justified(f, local, want, t_atoms, f_atoms, _seen=None):
+def _reached_only_if_true(f, bb, locals_):
+    """Block bb is reached only through the true edge of a switch on one of `locals_` (or a let-bound copy of it)."""
+    for l in locals_:
+        for sbb, t in switches_on_value(f, l):
+            if f.local_ty(operand_local(t["discr"])) != "bool":
+                continue
+            tb, fb = f.bool_edges(sbb)
+            if tb is not None and tb in f.succ(sbb) and tb != fb and f.edge_dominates(sbb, tb, bb):
+                return True
+    return False
+
+
+def justified(f, local, want, t_atoms, f_atoms, _seen=None, assume=()):
     """Can the bool `local` hold the value `want` only after some atom of t_atoms evaluated to true / some atom of
     f_atoms to false?  Every definition of the local is examined: a definition that is itself such an atom, a constant
     of the other value, a copy / `!` / `|` / `&` of justified values, or any definition in a block that path facts
     show to be reached only after one of the atoms was established (named flags set inside `if test {..}`, the
-    `return true` of an early-return loop, the lowering of `a && b`)."""
+    `return true` of an early-return loop, the lowering of `a && b`).  `assume`: locals taken to be true only after the
+    test (the accumulator parameter of a fold closure: by induction over the elements it is the init value `false` or
+    what the closure returned before)."""
+    if want and local in assume:
+        return True
     seen = _seen if _seen is not None else set()
     if (local, want) in seen:
         return True       # a flag defined in terms of itself (`found |= ..`): the other definitions decide
@@ -230,6 +246,8 @@ def justified(f, local, want, t_atoms, f_atoms, _seen=None):
         if bb not in reach or f.blocks[bb]["cleanup"]:
             continue
         if f.guarded_by(bb, atoms_true=list(t_atoms), atoms_false=list(f_atoms))[0]:
+            continue
+        if want and assume and _reached_only_if_true(f, bb, assume):
             continue
         if kind == "call":
             a = ("call", bb)
@@ -246,15 +264,15 @@ def justified(f, local, want, t_atoms, f_atoms, _seen=None):
                     continue
                 return False
             l2 = operand_local(rv["op"])
-            if l2 is None or not justified(f, l2, want, t_atoms, f_atoms, seen):
+            if l2 is None or not justified(f, l2, want, t_atoms, f_atoms, seen, assume):
                 return False
         elif rv["rv"] == "unop" and rv["op"] == "Not":
             l2 = operand_local(rv["a"])
-            if l2 is None or not justified(f, l2, not want, t_atoms, f_atoms, seen):
+            if l2 is None or not justified(f, l2, not want, t_atoms, f_atoms, seen, assume):
                 return False
         elif rv["rv"] == "binop" and rv["op"] in ("BitOr", "BitAnd"):
             ls = [operand_local(rv["a"]), operand_local(rv["b"])]
-            oks = [l is not None and justified(f, l, want, t_atoms, f_atoms, set(seen)) for l in ls]
+            oks = [l is not None and justified(f, l, want, t_atoms, f_atoms, set(seen), assume) for l in ls]
             # x | y is true only if one is true: both must be justified for `true`; x & y is true only if both are: one suffices
             need_all = (rv["op"] == "BitOr") == bool(want)
             if not (all(oks) if need_all else any(oks)):
@@ -292,21 +310,34 @@ def enforced_at(f, site, t_atoms, f_atoms):
 EXISTS_ADAPTORS = r"iter::Iterator::any$|Option::<T>::is_some_and$|Option::<T>::map_or$|Option::<T>::is_none_or$"
 
 
-def lift_atom(facts, chain, ebb):
+FOLD = r"iter::Iterator::fold$"
+
+
+def lift_atom(facts, chain, ebb, folds=None):
     """The element test is the bool call at block `ebb` of chain[0].fn.  Lift it outwards along the chain: if the
     closure it lives in returns true only after it, and the closure is the predicate of an existential adaptor
-    (`any`, `is_some_and`, `map_or(false, ..)`, or `map(..)` followed by `unwrap_or(false)`), the adaptor call is a
-    test of the enclosing function that is true only if some element passed.  Returns (atom block in the last hop's
+    (`any`, `is_some_and`, `map_or(false, ..)`, `map(..)` followed by `unwrap_or(false)`, or a `fold` from `false` whose
+    closure returns true only if its accumulator was true or the test held — these closures are appended to `folds`),
+    the adaptor call is a test of the enclosing function that is true only if some element passed.  Returns (atom block in the last hop's
     function, None) or (None, reason)."""
     cur = ebb
     for i in range(len(chain) - 1):
         g = chain[i].fn
         bb, t, node, ai = chain[i + 1].site
         par = chain[i + 1].fn
-        if not justified(g, 0, True, {("call", cur)}, set()):
-            return None, "the closure testing the element can return true without the comparison succeeding"
         c = t.get("callee") or ""
-        if re.search(r"iter::Iterator::any$|Option::<T>::is_some_and$", c):
+        # `fold(false, |found, x| found || test(x))`: the accumulator (the closure's first parameter) is `false` or what the
+        # closure returned for an earlier element, so it may be assumed to be true only after the test
+        is_fold = bool(re.search(FOLD, c)) and ai == 2 and g.argc == 3
+        if not justified(g, 0, True, {("call", cur)}, set(), assume=({2} if is_fold else ())):
+            return None, "the closure testing the element can return true without the comparison succeeding"
+        if is_fold:
+            if len(t["args"]) != 3 or _const_bool(t["args"][1]) is not False:
+                return None, "the fold over the elements does not start from `false`"
+            if folds is not None:
+                folds.append(g)
+            cur = bb
+        elif re.search(r"iter::Iterator::any$|Option::<T>::is_some_and$", c):
             cur = bb
         elif re.search(r"Option::<T>::map_or$", c):
             if _const_bool(t["args"][1]) is not False:
@@ -524,6 +555,9 @@ def pattern_answers(facts, fn, pat, chars):
                 strs.add(v["str"])
             elif isinstance(v, dict) and "int" in v and (ty == "char" or a[0] == "const"):
                 cs.add(v["int"])
+            elif isinstance(v, dict) and isinstance(v.get("list"), list) and v["list"] and all(isinstance(e, dict) and "int" in e for e in v["list"]):
+                # a named constant array of chars (`const SEPARATORS: [char; 3]`), rendered element by element
+                cs.update(e["int"] for e in v["list"])
             else:
                 other = True
         elif a[0] == "agg" and a[1] in ("array", "tuple"):
@@ -846,3 +880,316 @@ def blocks_after_success(f, groups, free_group, forced, avoid_edges=(), max_stat
             for x in nxt:
                 work.append((x, fe, sat2))
     return hit, every
+
+
+# ------------------------------------------------------------------------------------------------ who built this HttpError
+ERR_ADT = "error::HttpError"
+CONVERT = r"(^|::)convert::(Into::into|From::from)$"
+
+
+def conversion_impl(facts, term, target=ERR_ADT):
+    """`x.into()` / `Target::from(x)` with a crate-local `impl From<X> for Target`: the Fn of that impl's `from`
+    (a conversion written by hand is a constructor like any other: what it returns decides).  Returns (Fn or None, source type);
+    (None, None) if the call is not a conversion into `target`."""
+    if not re.search(CONVERT, term.get("callee") or ""):
+        return None, None
+    gargs = term.get("gargs") or []
+    if target not in gargs or len(gargs) != 2:
+        return None, None
+    src = [g for g in gargs if g != target]
+    if not src:
+        return None, target          # From<T> for T: the identity
+    src = src[0]
+    for i in facts.impls:
+        if i["trait"] == "std::convert::From" and i["self"] == target and ("From<%s>" % src) in i["impl"]:
+            for it in i["items"]:
+                if it["name"] == "from" and it["id"] in facts.F:
+                    return facts.F[it["id"]], src
+    return None, src
+
+
+def error_ctor_names(facts, f, op, depth=3):
+    """The HttpError constructors that can have built the error value `op` of `f`, whatever carries it: a direct
+    `HttpError::for_*(..)` call, the return value of a closure on the slice (`ok_or_else(|| ..)`), or a hand-written conversion
+    (`Defect::X.into()` with `impl From<Defect> for HttpError`: the constructors its `from` returns).  A struct literal of
+    HttpError or a conversion without a crate-local impl is reported under a `<..>` name, so that a caller asking for
+    `== {for_bad_request}` fails closed."""
+    sl = f.slice(op)
+    names = set(c for c in sl.callee_names() if re.search(r"^error::HttpError::for_", c))
+    if any(a[0] == "agg" and a[1] == ERR_ADT for a in sl.atoms):
+        names.add("<HttpError struct literal>")
+    for a in sl.atoms:
+        if a[0] == "agg" and a[1] in facts.F:
+            for g in [facts.F[a[1]]] + facts.descendants(facts.F[a[1]]):
+                names |= set(c for c in g.slice({"l": 0, "p": []}).callee_names() if re.search(r"^error::HttpError::for_", c))
+    for c, bb, t in sl.callees:
+        g, src = conversion_impl(facts, t)
+        if src is None or src == ERR_ADT:
+            continue
+        if g is None or depth <= 0:
+            names.add("<conversion from %s>" % src)
+            continue
+        inner = error_ctor_names(facts, g, {"k": "copy", "pl": {"l": 0, "p": []}}, depth - 1)
+        names |= inner or {"<conversion from %s builds no HttpError constructor>" % src}
+    return names
+
+
+# ------------------------------------------------------------------------------------------------ the encoded text and where it goes
+def encoded_text(f, ebb, et):
+    """The local that holds the text produced by the base64 call at block ebb: the destination of `Engine::encode`, or the String
+    that `Engine::encode_string(engine, data, &mut s)` appends to — which must then be a fresh String (`String::new()` /
+    `with_capacity`) that nothing else writes to, and the call must not be repeated.  Returns (local or None, is_buffer, text)."""
+    c = et.get("callee") or ""
+    if c.endswith("::encode"):
+        if et["dest"]["p"]:
+            return None, False, "the result of Engine::encode is stored into a part of a value"
+        return et["dest"]["l"], False, "text = the value returned by Engine::encode"
+    if not c.endswith("::encode_string") or len(et["args"]) != 3:
+        return None, False, "unknown encoder %s" % c
+    root, mut = owned_root(f, et["args"][2])
+    if root is None or not mut or 1 <= root <= f.argc:
+        return None, True, "encode_string does not append to a String owned by this function"
+    ds = [d for d in f.defs().get(root, []) if not f.blocks[d[0]]["cleanup"]]
+    if len(ds) != 1 or ds[0][1] != "call" or not re.search(r"string::String::(new|with_capacity)$", ds[0][2].get("callee") or ""):
+        return None, True, "the String handed to encode_string is not a fresh one (String::new / with_capacity)"
+    probs = []
+    if ebb in f.loop_blocks():
+        probs.append("encode_string is called in a loop")
+    for bb, t in f.live_calls():
+        for i, a in enumerate(t["args"]):
+            r, m = owned_root(f, a)
+            if r == root and m and bb != ebb and not re.search(r"string::String::reserve(_exact)?$", t.get("callee") or ""):
+                probs.append("the String is also modified by %s" % (t.get("callee") or "<indirect>"))
+    if any(st["pl"]["l"] == root and st["pl"]["p"] for _, _, st in f.stmts()):
+        probs.append("a part of the String is assigned")
+    if probs:
+        return None, True, "; ".join(sorted(set(probs)))
+    return root, True, "text = the fresh String that Engine::encode_string appends to"
+
+
+def arrives_unmodified(f, sink, res, is_buffer, ebb=None):
+    """Every value the operand / place `sink` may hold is the text `res` (from encoded_text), carried there as a whole: moved,
+    wrapped into and projected out of Some / Ok (`.map(..).ok_or_else(..)?` in the normalised view), through `?` — no other
+    origin, no part of it (lib_c01.sources); and no String derived from it is handed out mutably on the way (the buffer of
+    encode_string itself is vetted by encoded_text)."""
+    from .lib_c01 import sources
+    if sink is None or res is None:
+        return False
+    ps = sources(f, sink, transparent=[r"ops::Try::branch$"])
+    if not ps:
+        return False
+    for p in ps:
+        if p.kind() != "call" or p.root[1] != res or p.path or p.calls and any(not re.search(r"ops::Try::branch$", c) for c, _ in p.calls):
+            return False
+        if not is_buffer and ebb is not None and p.root[3] != ebb:
+            return False
+    tainted, _ = f.forward([res])
+    return not any(_mut_borrowed(f, x) for x in tainted if not (is_buffer and x == res) and re.match(r"(std|alloc)::string::String$", f.local_ty(x) or ""))
+
+
+# ------------------------------------------------------------------------------------------------ a local normal form of one function
+# (generic; belongs in engine.py next to _inline_unknown_helpers)
+def _walk_places(o, fn, ctx="other"):
+    """Call fn(place, kind) for every place in a MIR fragment; kind = 'read' for the place of a copy/move operand, 'def' for the
+    destination of an assignment, 'other' else."""
+    if isinstance(o, list):
+        for x in o:
+            _walk_places(x, fn, ctx)
+    elif isinstance(o, dict):
+        if "l" in o and "p" in o and len(o) == 2:
+            fn(o, ctx)
+            return
+        if o.get("k") in ("copy", "move") and "pl" in o:
+            _walk_places(o["pl"], fn, "read")
+            return
+        for k, v in o.items():
+            _walk_places(v, fn, "def" if k == "pl" and o.get("s") == "assign" else "other")
+
+
+def _inline_local_closure_calls(facts, fn, raw, max_blocks=1500):
+    """`let helper = |a, b| ..; helper(x, y)`: a closure bound to a local and called directly is a local function.  Its body is
+    inlined at every direct call site (`Fn::call(&helper, (x, y))` resolved to the closure), the environment reference and the
+    elements of the argument tuple bound to its parameters, exactly as the engine inlines a helper `fn`; the closures defined
+    inside it become children of the caller (raw["inlined"]).  Returns the ids of the closures inlined."""
+    from .engine import _remap, _rename_local
+    home = set([raw["id"]] + list(raw.get("inlined", [])))
+    done = []
+    i = 0
+    while i < len(raw["blocks"]) and len(raw["blocks"]) < max_blocks:
+        blk = raw["blocks"][i]
+        i += 1
+        t = blk["term"]
+        if t["t"] != "call" or blk.get("cleanup") or not re.search(r"ops::(Fn::call|FnMut::call_mut|FnOnce::call_once)$", t.get("callee") or ""):
+            continue
+        g = facts.F.get(t.get("resolved") or "")
+        if g is None or g.raw["kind"] != "Closure" or g.raw.get("coroutine") or g.raw.get("parent") not in home or len(t["args"]) != 2:
+            continue
+        tl = operand_local(t["args"][1])
+        tup = [st for st in blk["st"] if st["s"] == "assign" and st["pl"] == {"l": tl, "p": []} and st["rv"]["rv"] == "agg" and st["rv"].get("agg") == "tuple"]
+        if tl is None or len(tup) != 1 or len(tup[0]["rv"]["ops"]) != g.raw["argc"] - 1:
+            continue
+        graw = g.raw
+        loff, boff = len(raw["locals"]), len(raw["blocks"])
+        line = t.get("line", 0)
+        blk["st"].append({"s": "assign", "pl": {"l": loff + 1, "p": []}, "rv": {"rv": "use", "op": t["args"][0]}, "line": line, "inl": graw["id"]})
+        for k, a in enumerate(tup[0]["rv"]["ops"]):
+            blk["st"].append({"s": "assign", "pl": {"l": loff + 2 + k, "p": []}, "rv": {"rv": "use", "op": a}, "line": line, "inl": graw["id"]})
+        ret_to, dest = t.get("to"), t["dest"]
+        blk["term"] = {"t": "goto", "to": boff, "line": line, "exp": t.get("exp", False), "inl_call": graw["id"]}
+        raw["locals"] = raw["locals"] + list(graw["locals"])
+        for nm in graw["names"]:
+            raw["names"].append({"name": nm["name"], "pl": _remap(nm["pl"], loff, boff)})
+        direct = not dest["p"]
+        for gb in graw["blocks"]:
+            nb = _remap(gb, loff, boff)
+            nb["bb"] = gb["bb"] + boff
+            if nb["term"]["t"] == "return":
+                if not direct:
+                    nb["st"].append({"s": "assign", "pl": dest, "rv": {"rv": "use", "op": {"k": "move", "pl": {"l": loff, "p": []}}}, "line": line, "inl": graw["id"]})
+                nb["term"] = ({"t": "goto", "to": ret_to, "line": line, "exp": False} if ret_to is not None else {"t": "unreachable", "line": line, "exp": False})
+            if direct:
+                _rename_local(nb, loff, dest["l"])
+            raw["blocks"].append(nb)
+        raw.setdefault("inlined", [])
+        for x in [graw["id"]] + list(graw.get("inlined", [])):
+            if x not in raw["inlined"]:
+                raw["inlined"].append(x)
+        home.add(graw["id"])
+        done.append(graw["id"])
+    return done
+
+
+def _split_bool_tuples(raw):
+    """`match (a, b) { (true, true) => .., (false, _) => .., .. }`: a tuple of bools that is only built whole and read field by
+    field is replaced by one local per field, so that the switches on `t.0` / `t.1` are switches on bool locals (which the
+    path-sensitive facts follow through copies).  Returns the number of tuples split."""
+    n = 0
+    for T, ty in enumerate(list(raw["locals"])):
+        m = re.match(r"^\((bool, )*bool,?\)$", ty or "")
+        if not m or T <= raw["argc"]:
+            continue
+        arity = ty.count("bool")
+        ok = [True]
+        occ = []
+
+        def see(pl, kind):
+            if pl["l"] != T:
+                if any(isinstance(e, dict) and e.get("idx") == T for e in pl["p"]):
+                    ok[0] = False
+                return
+            if kind == "read" and len(pl["p"]) == 1 and isinstance(pl["p"][0], dict) and "f" in pl["p"][0] and pl["p"][0]["f"] < arity:
+                occ.append(pl)
+            elif kind == "def" and not pl["p"]:
+                pass
+            else:
+                ok[0] = False
+        _walk_places(raw["blocks"], see)
+        defs = [st for b in raw["blocks"] for st in b["st"] if st["s"] == "assign" and st["pl"]["l"] == T]
+        if not ok[0] or not defs or any(st["pl"]["p"] or st["rv"]["rv"] != "agg" or st["rv"].get("agg") != "tuple" or len(st["rv"]["ops"]) != arity for st in defs):
+            continue
+        base = len(raw["locals"])
+        raw["locals"] = raw["locals"] + ["bool"] * arity
+        for b in raw["blocks"]:
+            out = []
+            for st in b["st"]:
+                if st["s"] == "assign" and st["pl"]["l"] == T:
+                    for k, a in enumerate(st["rv"]["ops"]):
+                        out.append({"s": "assign", "pl": {"l": base + k, "p": []}, "rv": {"rv": "use", "op": a}, "line": st.get("line", 0), "sroa": T})
+                else:
+                    out.append(st)
+            b["st"] = out
+        for pl in occ:
+            k = pl["p"][0]["f"]
+            pl["l"], pl["p"] = base + k, []
+        n += 1
+    return n
+
+
+def local_view(facts, fn):
+    """A copy of `facts` in which `fn` is in local normal form: local closures that are called directly are inlined at their call
+    sites and tuples of bools are split into their fields.  Everything else is shared with `facts`.  Returns `facts` itself if
+    nothing in `fn` needs normalising."""
+    import copy
+    from .engine import Fn
+    raw = copy.deepcopy(fn.raw)
+    inl = _inline_local_closure_calls(facts, fn, raw)
+    nsplit = _split_bool_tuples(raw)
+    if not inl and not nsplit:
+        return facts
+    view = copy.copy(facts)
+    view.F = dict(facts.F)
+    view._callers = None
+    fn2 = Fn(view, fn.id, raw)
+    view.F[fn.id] = fn2
+    # a local closure whose every use was a direct call is no longer a function of the program
+    for cid in set(inl):
+        g = facts.F[cid]
+        used = any(closure_of_operand(fn2, a)[0] is g for _, t in fn2.live_calls() for a in t["args"]) or \
+            any((t.get("resolved") == cid) for h in view.F.values() for _, t in h.calls())
+        if not used:
+            del view.F[cid]
+    return view
+
+
+# ------------------------------------------------------------------------------------------------ a fold keeps a success
+def returns_true_given(g, local, max_states=20000):
+    """Every normal return of `g` entered with bool `local` = true returns true (bool locals tracked through constants, copies,
+    `!`, `|`, `&`; calls are unknown; a switch on a known bool follows one edge).  For a fold closure and its accumulator:
+    a success recorded for an earlier element is never forgotten."""
+    seen, work, n = set(), [(0, frozenset({(local, True)}))], 0
+    while work:
+        st = work.pop()
+        if st in seen:
+            continue
+        seen.add(st)
+        n += 1
+        if n > max_states:
+            return False
+        bb, envf = st
+        env = dict(envf)
+        blk = g.blocks[bb]
+        if blk["cleanup"]:
+            continue
+
+        def val(op):
+            c = _const_bool(op)
+            if c is not None:
+                return c
+            l = operand_local(op)
+            return env.get(l) if l is not None else None
+        for s in blk["st"]:
+            if s["s"] != "assign" or s["pl"]["p"]:
+                continue
+            l, rv, v = s["pl"]["l"], s["rv"], None
+            if rv["rv"] == "use":
+                v = val(rv["op"])
+            elif rv["rv"] == "unop" and rv["op"] == "Not":
+                a = val(rv["a"])
+                v = (not a) if a is not None else None
+            elif rv["rv"] == "binop" and rv["op"] in ("BitOr", "BitAnd"):
+                a, b2 = val(rv["a"]), val(rv["b"])
+                if rv["op"] == "BitOr":
+                    v = True if (a is True or b2 is True) else (False if (a is False and b2 is False) else None)
+                else:
+                    v = False if (a is False or b2 is False) else (True if (a is True and b2 is True) else None)
+            if v is None:
+                env.pop(l, None)
+            else:
+                env[l] = v
+        t = blk["term"]
+        if t["t"] == "return":
+            if env.get(0) is not True:
+                return False
+            continue
+        if t["t"] == "call" and not t["dest"]["p"]:
+            env.pop(t["dest"]["l"], None)
+        nxt = g.succ(bb)
+        if t["t"] == "switch":
+            l = operand_local(t["discr"])
+            if l is not None and g.local_ty(l) == "bool" and l in env:
+                tb, fb = g.bool_edges(bb)
+                nxt = [x for x in nxt if x == (tb if env[l] else fb)]
+        fe = frozenset(env.items())
+        for x in nxt:
+            work.append((x, fe))
+    return True
